@@ -508,6 +508,97 @@ func (c *c08) cancelStress(r *fw.Rec, rng *rand.Rand) {
 	r.Distinct("cancel-stress", fmt.Sprint(rng.Int63()))
 }
 
+// finishRace: on every clone, runs whose context ends at the very moment the script finishes (the script's last act is a
+// host call that ends its own context, so the result and ctx.Done() become ready together) alternate with ordinary runs.
+// Whatever the racing call returns, the NEXT run of that clone and of every other clone must be exact: nothing of a
+// cancellation that arrived too late may leak into another execution.
+func (c *c08) finishRace(r *fw.Rec, rng *rand.Rand) {
+	var mu sync.Mutex
+	ctxs := map[int64]*manualCtx{}
+	fire := &tengo.UserFunction{Name: "fire", Value: func(args ...tengo.Object) (tengo.Object, error) {
+		if len(args) == 1 {
+			if id, ok := args[0].(*tengo.Int); ok {
+				mu.Lock()
+				m := ctxs[id.Value]
+				mu.Unlock()
+				if m != nil {
+					m.expire()
+				}
+			}
+		}
+		return tengo.UndefinedValue, nil
+	}}
+	src := "out = inp * 2 + 1\nif racing { fire(id) }\n"
+	s := tengo.NewScript([]byte(src))
+	_ = s.Add("inp", 0)
+	_ = s.Add("out", 0)
+	_ = s.Add("id", 0)
+	_ = s.Add("racing", false)
+	_ = s.Add("fire", fire)
+	cp, err := s.Compile()
+	if err != nil {
+		r.Inc("harness-compile-error")
+		return
+	}
+	const K, iters = 8, 10
+	var wg sync.WaitGroup
+	bad := make([]string, K)
+	for i := 0; i < K; i++ {
+		wg.Add(1)
+		go func(i int) {
+			defer wg.Done()
+			cl := cp.Clone()
+			for j := 0; j < iters; j++ {
+				id := int64(i*1000 + j)
+				m := &manualCtx{done: make(chan struct{})}
+				mu.Lock()
+				ctxs[id] = m
+				mu.Unlock()
+				_ = cl.Set("id", id)
+				_ = cl.Set("racing", true)
+				_ = cl.Set("inp", id)
+				e := cl.RunContext(m)
+				if e != nil && e != context.DeadlineExceeded {
+					bad[i] = fmt.Sprintf("racing run %d returned %v", id, e)
+					return
+				}
+				// an ordinary run right afterwards (on this clone; its siblings do the same at the same time)
+				_ = cl.Set("racing", false)
+				_ = cl.Set("inp", id+7)
+				_ = cl.Set("out", -1)
+				if e := cl.RunContext(bg); e != nil || canon(cl.Get("out").Object()) != fmt.Sprintf("i%d", (id+7)*2+1) {
+					bad[i] = fmt.Sprintf("the run after racing run %d gave error=%v out=%s (want i%d)", id, e, canon(cl.Get("out").Object()), (id+7)*2+1)
+					return
+				}
+			}
+		}(i)
+	}
+	done := make(chan struct{})
+	go func() { wg.Wait(); close(done) }()
+	switch fw.WaitOrHang(done, 60*time.Second) {
+	case "hang":
+		r.Violate("finish-race:deadlock", "runs whose context ends as the script finishes did not all return", map[string]interface{}{"script": src})
+		panic("verif: worker abandoned after a hang")
+	case "inconclusive":
+		fw.AbandonInconclusive("finish-race runs had not finished after 1200 s on a loaded machine")
+	}
+	r.EvalN(K * iters * 2)
+	for i, b := range bad {
+		if b != "" {
+			r.Violate("finish-race:leak", "a cancellation that arrived as a run finished affected a later run", map[string]interface{}{"script": src, "clone": i, "what": b})
+			return
+		}
+	}
+	// the original must still be exact, too
+	_ = cp.Set("inp", 20)
+	if e := cp.RunContext(bg); e != nil || canon(cp.Get("out").Object()) != "i41" {
+		r.Violate("finish-race:leak", "a cancellation that arrived as a clone's run finished affected the original", map[string]interface{}{"script": src, "error": fmt.Sprint(e), "out": canon(cp.Get("out").Object())})
+		return
+	}
+	r.Inc("finish-race")
+	r.Distinct("finish-race", fmt.Sprint(rng.Int63()))
+}
+
 func (c *c08) RunCase(r *fw.Rec, cs fw.Case) {
 	rng := cs.Rng("c08")
 	switch {
@@ -515,6 +606,8 @@ func (c *c08) RunCase(r *fw.Rec, cs fw.Case) {
 		c.cloneAfterRunProbe(r)
 	case cs.Index%8 == 5:
 		c.cancelStress(r, rng)
+	case cs.Index%16 == 9:
+		c.finishRace(r, rng)
 	case cs.Index%4 == 3:
 		for i := 0; i < 8; i++ {
 			c.historyCase(r, rng)
@@ -525,7 +618,7 @@ func (c *c08) RunCase(r *fw.Rec, cs fw.Case) {
 }
 
 func (c *c08) Finish(m *fw.Merged, tier string) {
-	for _, k := range []string{"histories-linearizable", "clone-executions", "clone-after-run-probe", "cancel-stress", "replace-builtin-module:mode0", "replace-builtin-module:mode1", "replace-builtin-module:mode2"} {
+	for _, k := range []string{"histories-linearizable", "clone-executions", "clone-after-run-probe", "cancel-stress", "finish-race", "replace-builtin-module:mode0", "replace-builtin-module:mode1", "replace-builtin-module:mode2"} {
 		if m.Counters[k] == 0 {
 			m.Fail("never observed: " + k)
 		}
